@@ -89,16 +89,6 @@ pub fn layout(mem: &Region, mbuff: &Region, stack: &Region, allowed: &HashSet<Ra
     }
 }
 
-fn is_store_class(opc: u8) -> bool {
-    let c = opc & 7;
-    c == CLS_ST || c == CLS_STX
-}
-
-fn is_jump(opc: u8) -> bool {
-    let c = opc & 7;
-    (c == CLS_JMP || c == CLS_JMP32) && opc != OP_CALL && opc != OP_EXIT && opc != OP_TAIL_CALL
-}
-
 fn ret_ok(st: &SState, k: usize, n: usize) -> bool {
     k >= st.depth || st.frames[k].ret < n
 }
@@ -127,29 +117,6 @@ pub fn inv(st: &SState, n: usize, stack_base: u64) -> bool {
     r10_ok(st, stack_base) && st.pc < n && st.depth <= S_MAX_DEPTH
         && ret_ok(st, 0, n) && ret_ok(st, 1, n) && ret_ok(st, 2, n) && ret_ok(st, 3, n)
         && ret_ok(st, 4, n) && ret_ok(st, 5, n) && ret_ok(st, 6, n) && ret_ok(st, 7, n)
-}
-
-/// The conjuncts of `wf_insn` (spec/wf.rs, established by verifier::check, C06)
-/// instantiated at the current instruction.
-pub fn wf_facts(i: &SInsn, pc: usize, n: usize) -> bool {
-    if !(n >= 1 && n <= S_MAX_INSNS && pc < n) {
-        return false;
-    }
-    let tgt_off = pc as i64 + 1 + i.off as i64;
-    let tgt_imm = pc as i64 + 1 + i.imm as i64;
-    true
-        // (a tail call is refused by the verifier; the arm is still checked: it must return Err)
-        && supported(i.opc)
-        && i.src <= 10
-        && (i.dst <= 9 || (i.dst == 10 && is_store_class(i.opc)))
-        && (i.opc != OP_LDDW || pc + 2 < n)
-        && (!is_jump(i.opc) || (i.off != -1 && 0 <= tgt_off && tgt_off < n as i64))
-        && (i.opc != OP_CALL || i.src <= 1)
-        && (!(i.opc == OP_CALL && i.src == 1) || (0 <= tgt_imm && tgt_imm < n as i64))
-        && (!(i.opc == OP_LE || i.opc == OP_BE) || i.imm == 16 || i.imm == 32 || i.imm == 64)
-        && (!(i.opc == OP_XADD_W || i.opc == OP_XADD_DW) || i.imm == 0)
-        // execution cannot run past the last instruction: a non-jump is never last
-        && (pc + 1 < n || i.opc == OP_EXIT || i.opc == OP_JA)
 }
 
 pub fn step_pre_base(
@@ -269,7 +236,8 @@ pub fn step_post(
             access: access_ok, helper: helper_call_ok, fetch: fetch_ok,
             lookups: usage_lookup_ok && helper_lookup_ok,
             // Inv is re-established (C05): the next fetch is inside the program
-            inv: inv(&want.post, env.n_insns, stack_r.base),
+            // on the state the code actually produced
+            inv: inv(&got, env.n_insns, stack_r.base),
         },
     }
 }
